@@ -35,6 +35,13 @@ type domain struct {
 	isFunc bool
 }
 
+func min(a, b int) int {
+	if a < b {
+		return a
+	}
+	return b
+}
+
 func pick(r *vmon.Rng, vs ...interface{}) interface{} { return vs[r.Intn(len(vs))] }
 
 var s1, s2, s3 = &S{1, "a", []int{1}}, &S{1, "a", []int{1}}, &S{2, "b", nil}
@@ -48,7 +55,7 @@ func domains() []domain {
 				return int64(r.Intn(4))
 			case 1:
 				if signed {
-					return []int64{-1, -(1 << (bits - 1)), 1<<(bits-1) - 1, 0}[r.Intn(4)]
+					return []int64{-1, -(1 << (bits - 1)), 1<<(bits-1) - 1, 0, 1 << (bits - 2), 1<<(bits-2) + 1, (1 << (bits - 1) - 1) - 1, 1 << uint(min(bits-2, 53)), 1<<uint(min(bits-2, 53)) + 1}[r.Intn(9)]
 				}
 				return 0
 			case 2:
@@ -230,6 +237,8 @@ func TestC18(t *testing.T) {
 		x, a := d.gen(rng), d.gen(rng)
 		if rng.Chance(1, 5) {
 			a = x
+		} else if rng.Chance(1, 3) {
+			a = neighbour(x, rng) // adjacent values: the closest distinct value must not compare equal
 		}
 		if nilable(d.typ.Kind()) && rng.Chance(1, 8) {
 			x = nil // the untyped nil a user writes in When(nil)
@@ -417,4 +426,47 @@ func TestC18Stubs(t *testing.T) {
 		}
 		b.Reset()
 	}
+}
+
+// neighbour returns a value adjacent to v (v+-1 for integers, the next representable float) or v itself for other kinds.
+func neighbour(v interface{}, r *vmon.Rng) interface{} {
+	d := int64(1)
+	if r.Bool() {
+		d = -1
+	}
+	switch t := v.(type) {
+	case int:
+		return t + int(d)
+	case int8:
+		return t + int8(d)
+	case int16:
+		return t + int16(d)
+	case int32:
+		return t + int32(d)
+	case int64:
+		return t + d
+	case uint:
+		return t + uint(d)
+	case uint8:
+		return t + uint8(d)
+	case uint16:
+		return t + uint16(d)
+	case uint32:
+		return t + uint32(d)
+	case uint64:
+		return t + uint64(d)
+	case uintptr:
+		return t + uintptr(d)
+	case float64:
+		if math.IsInf(t, 0) {
+			return t
+		}
+		return math.Nextafter(t, t+float64(d)*math.Abs(t)+float64(d))
+	case float32:
+		if math.IsInf(float64(t), 0) {
+			return t
+		}
+		return math.Nextafter32(t, t+float32(d)*float32(math.Abs(float64(t)))+float32(d))
+	}
+	return v
 }
